@@ -36,6 +36,16 @@ def make_monitor(ctx):
                             % (pname, e[1], "testSetUp" if e[0] == "tsu" else "testTearDown"), "C13:not-restored")
         if not c.opts.get("buffer"):
             return None
+        if c.opts.get("post_mortem"):
+            # (-D runs the tests through test.debug(): no per-test windows in the trace; these worlds have no failing
+            # test, so nothing any test writes may reach the output)
+            for t in w["tests"]:
+                for part in [t["setUp"], t["body"], t["tearDown"]] + t["subs"] + t["cleanups"]:
+                    for to_err, tok in part["writes"]:
+                        if "TOK%dK" % tok in text:
+                            return ("output TOK%dK of the %s test t%d appears in the runner's output (--buffer with -D)"
+                                    % (tok, t["kind"], t["id"]), "C13:leak")
+            return None
         # which tokens were written at all (phase executed), and is their test failing?
         executed = {}
         for evs in [parent] + list(children.values()):
@@ -119,6 +129,17 @@ def gen_cases(ctx):
         if rng.random() < 0.25:
             o["xml"] = "xmlout"         # the XML wrapper hands the captured output on to the formatter
         cases.append(cw.Case(w, o))
+    # --buffer together with -D/--post-mortem: as long as nothing fails no debugger is entered, and what passing,
+    # skipped and expected-failure tests write stays out of the output
+    for i in range(4 if ctx.quick() else 60):
+        w = worlds.gen_world(rng, n_layers=rng.choice([1, 2]), tests_per_layer=(1, 3), kinds=["pass", "pass", "skipBody"],
+                             p_fault=0.0, p_write=0.8)
+        for t in w["tests"]:
+            t.pop("doctest", None)
+            t.pop("rebind", None)
+            t.pop("ownstream", None)
+        cases.append(cw.Case(w, {"verbose": rng.choice([0, 1]), "buffer": True, "post_mortem": True, "_stdin": "c\n" * 5},
+                             "buffer+post-mortem"))
     return cases
 
 
